@@ -406,6 +406,8 @@ func checkC04(c *Ctx) {
 	}
 
 	// ---- C04.restore ----
+	checkC04BlockHandle(c)
+
 	// ---- C04.pool-kept ----
 	// inside a transaction the statement's pool is the transaction; library code installs the base pool
 	// (DB.Config.ConnPool) on a statement only at Open, when the current pool is no transaction (type switch
